@@ -73,7 +73,7 @@ def cases(seed, tier):
 
 
 def _docs(rng, n, tzname, ts):
-    base = datetime(rng.choice([2018, 2019, 2020]), rng.choice([3, 11, 6, 10, 4]), rng.randint(1, 12), tzinfo=timezone.utc)
+    base = datetime(rng.choice([2018, 2019, 2020]), rng.choice([3, 11, 6, 10, 4]), rng.choice([1, 2, 3, rng.randint(1, 12)]), tzinfo=timezone.utc)
     docs = []
     z = zoneinfo.ZoneInfo(tzname)
     tr = _next_transition(base, z)
@@ -95,6 +95,15 @@ def _docs(rng, n, tzname, ts):
             stamps = [rfc1123(c + timedelta(seconds=step * j)) for j in range(k)]
             doc["chargingCurrent"] = {"current": [float(j) for j in range(k)], "timestamps": stamps}
             doc["pilotSignal"] = {"pilot": [float(j) for j in range(k)], "timestamps": list(stamps)}
+        if rng.random() < 0.25:
+            # other legal RFC-1123 spellings of the same instants: day of month without leading zero (1*2DIGIT)
+            import re as _re
+            unpad = lambda s_: _re.sub(r"^(\w{3}), 0(\d) ", r"\1, \2 ", s_) if isinstance(s_, str) else s_
+            for f_ in ("connectionTime", "disconnectTime", "doneChargingTime"):
+                doc[f_] = unpad(doc[f_])
+            for f_ in ("chargingCurrent", "pilotSignal"):
+                if f_ in doc:
+                    doc[f_]["timestamps"] = [unpad(x_) for x_ in doc[f_]["timestamps"]]
         docs.append(doc)
     return base, docs
 
